@@ -573,7 +573,7 @@ def flush_durability(prog, rep, rule, tag):
     """unix_flush: returns 0 only after the cache was written out and fsync'ed; errors returned.
     Shared with C04.b (sync_blockdev -> io_channel_flush -> this slot)."""
     ufns = {f.name: f for f in prog.fns_in_file(UFILE)}
-    impl = [nm for nm in prog.slots().get(("struct_io_manager", "flush"), ()) if nm in ufns]
+    impl = [nm for nm in sorted(prog.slot_names("struct_io_manager", "flush")) if nm in ufns]
     if not impl:
         raise Broken("unix flush slot vanished")
     uf = ufns[impl[0]]
